@@ -70,6 +70,10 @@ func replay(path string) {
 			r := runLocalCell(j.Locals[i], j.Base+i)
 			mism = r.Mism
 			fmt.Printf("%s: parked=%v nontrivial=%v %s %s\n", name, r.Parked, r.Nontrivial, r.Note, r.Fatal)
+		case "deep":
+			r := runDeepCell(j.Deeps[i], j.Base+i)
+			mism = r.Mism
+			fmt.Printf("%s: parked=%v nontrivial=%v %s %s\n", name, r.Parked, r.Nontrivial, r.Note, r.Fatal)
 		}
 		for _, m := range mism {
 			n++
@@ -131,7 +135,7 @@ func devCells(kind string) {
 		r := rand.New(rand.NewSource(1))
 		bad, n := 0, 0
 		for id := 1; id <= 40; id++ {
-			rd := genRound(r, 900000+id, true)
+			rd := genRound(r, 900000+id, true, true)
 			w, err := newLoadedWorld()
 			if err != nil {
 				fmt.Println(err)
@@ -160,6 +164,8 @@ func devCells(kind string) {
 		j = job{Kind: "gate", Gates: allGateCells()}
 	case "seq":
 		j = job{Kind: "seq", Seqs: allSeqCells()}
+	case "deep":
+		j = job{Kind: "deep", Deeps: allDeepCells()}
 	default:
 		j = job{Kind: "lgate", Locals: allLocalCells()}
 	}
@@ -171,6 +177,8 @@ func devCells(kind string) {
 			r = runGateCell(j.Gates[i], i)
 		case "seq":
 			r = runSeqCell(j.Seqs[i], i)
+		case "deep":
+			r = runDeepCell(j.Deeps[i], i)
 		default:
 			r = runLocalCell(j.Locals[i], i)
 		}
